@@ -66,6 +66,11 @@ class TensorEval:
                     self.bind_target(st.target, x, env)
                     self.block(f, st.body, env)
                 continue
+            if isinstance(st, ast.Assign) and len(st.targets) > 1 and all(isinstance(t_, ast.Name) for t_ in st.targets):
+                v = self.ev(f, st.value, env)
+                for t_ in st.targets:
+                    env[t_.id] = v
+                continue
             if isinstance(st, ast.Assign) and len(st.targets) == 1 and isinstance(st.targets[0], (ast.Tuple, ast.List)):
                 v = self.ev(f, st.value, env)
                 self.bind_target(st.targets[0], v, env)
@@ -90,6 +95,20 @@ class TensorEval:
                 k = st.target.id if isinstance(st.target, ast.Name) else norm(st.target)
                 cur = self.ev(f, st.target if isinstance(st.target, ast.Attribute) else ast.Name(id=k, ctx=ast.Load()), env)
                 env[k] = self.binop(st.op, cur, self.ev(f, st.value, env))
+                continue
+            if isinstance(st, ast.While) and not st.orelse:
+                for _ in range(2000):
+                    c = self.ev(f, st.test, env)
+                    if not (isinstance(c, (bool, int)) or (np is not None and isinstance(c, np.bool_))):
+                        raise Unknown('loop condition on a symbolic value')
+                    if not c:
+                        break
+                    self.block(f, st.body, env)
+                else:
+                    raise Unknown('loop bound')
+                continue
+            if isinstance(st, ast.Try):
+                self.block(f, st.body, env)      # handlers convert library errors into the package's own: not a value path
                 continue
             if isinstance(st, ast.If):
                 try:
@@ -133,6 +152,8 @@ class TensorEval:
                     return np.frompyfunc(lambda q: q ** r, 1, 1)(l)
                 return l ** (int(r) if isinstance(r, float) and r == int(r) else r)
             raise Unknown('power')
+        if isinstance(op, (ast.FloorDiv, ast.Mod)) and isinstance(l, int) and isinstance(r, int) and r != 0:
+            return l // r if isinstance(op, ast.FloorDiv) else l % r
         if isinstance(op, ast.MatMult):
             return np.matmul(l, r) if False else (_ for _ in ()).throw(Unknown('matrix product'))
         raise Unknown(f'operator {type(op).__name__}')
@@ -145,6 +166,10 @@ class TensorEval:
             return slice(g(sl.lower), g(sl.upper), g(sl.step))
         v = self.ev(f, sl, env)
         if v is None or v is Ellipsis or isinstance(v, int):
+            return v
+        if isinstance(v, (list, range, tuple)) and all(isinstance(x, int) for x in v):
+            return list(v)
+        if np is not None and isinstance(v, np.ndarray) and v.dtype != object:
             return v
         raise Unknown(f'index `{norm(sl)[:30]}`')
 
@@ -164,6 +189,27 @@ class TensorEval:
             return tuple(self.ev(f, x, env) for x in e.elts)
         if isinstance(e, ast.List):
             return [self.ev(f, x, env) for x in e.elts]
+        if isinstance(e, (ast.ListComp, ast.GeneratorExp)):
+            out = []
+
+            def rec(gi, scope):
+                if gi == len(e.generators):
+                    out.append(self.ev(f, e.elt, scope))
+                    return
+                g = e.generators[gi]
+                src = self.ev(f, g.iter, scope)
+                if not isinstance(src, (range, list, tuple)) or len(src) > 256:
+                    raise Unknown('comprehension source')
+                for x in src:
+                    sc = dict(scope)
+                    self.bind_target(g.target, x, sc)
+                    conds = [self.ev(f, c, sc) for c in g.ifs]
+                    if any(not (isinstance(c, (bool, int)) or c is None) for c in conds):
+                        raise Unknown('comprehension condition')
+                    if all(conds):
+                        rec(gi + 1, sc)
+            rec(0, env)
+            return out
         if isinstance(e, ast.UnaryOp) and isinstance(e.op, ast.USub):
             return -self.ev(f, e.operand, env)
         if isinstance(e, ast.BinOp):
@@ -174,7 +220,27 @@ class TensorEval:
             ops = {ast.Eq: operator.eq, ast.NotEq: operator.ne, ast.Lt: operator.lt, ast.LtE: operator.le, ast.Gt: operator.gt, ast.GtE: operator.ge}
             if type(e.ops[0]) in ops and isinstance(l, (int, float)) and isinstance(r, (int, float)):
                 return ops[type(e.ops[0])](l, r)
+            if isinstance(e.ops[0], (ast.Is, ast.IsNot)) and (l is None or r is None):
+                same = l is r
+                return same if isinstance(e.ops[0], ast.Is) else not same
+            if isinstance(e.ops[0], (ast.Eq, ast.NotEq)) and isinstance(l, str) and isinstance(r, str):
+                return (l == r) if isinstance(e.ops[0], ast.Eq) else (l != r)
             raise Unknown('comparison of symbolic values')
+        if isinstance(e, ast.BoolOp):
+            vals = [self.ev(f, v_, env) for v_ in e.values]
+            if all(isinstance(v_, (bool, int)) or v_ is None for v_ in vals):
+                return all(vals) if isinstance(e.op, ast.And) else any(vals)
+            raise Unknown('boolean of symbolic values')
+        if isinstance(e, ast.UnaryOp) and isinstance(e.op, ast.Not):
+            v_ = self.ev(f, e.operand, env)
+            if isinstance(v_, (bool, int)) or v_ is None:
+                return not v_
+            raise Unknown('negation of a symbolic value')
+        if isinstance(e, ast.IfExp):
+            c_ = self.ev(f, e.test, env)
+            if isinstance(c_, (bool, int)) or c_ is None:
+                return self.ev(f, e.body if c_ else e.orelse, env)
+            raise Unknown('conditional on a symbolic value')
         if isinstance(e, ast.Attribute):
             if e.attr == 'T':
                 return self.ev(f, e.value, env).T
@@ -184,6 +250,8 @@ class TensorEval:
                 return self.ev(f, e.value, env).ndim
             if e.attr == 'newaxis':
                 return None
+            if e.attr in ('dtype', 'itemsize'):
+                return None             # dtypes carry no value information here (the promotion rules own them)
             raise Unknown(f'attribute {t[:40]}')
         if isinstance(e, ast.Subscript):
             v = self.ev(f, e.value, env)
@@ -203,6 +271,8 @@ class TensorEval:
         kw = {k.arg: self.ev(f, k.value, env) for k in e.keywords if k.arg and k.arg != 'dtype'}
         dtype_txt = next((norm(k.value) for k in e.keywords if k.arg == 'dtype'), None)
         np_call = isinstance(fn, ast.Attribute) and norm(fn.value) in ('_np', 'np', 'numpy')
+        if name in self.summaries and isinstance(fn, ast.Attribute) and norm(fn.value) == 'self':
+            return self.summaries[name]([self.ev(f, a, env) for a in e.args], kw)
         if isinstance(fn, ast.Attribute) and norm(fn.value) == 'self' and self.cls is not None:
             g = self.prog.resolve_method(self.cls, fn.attr)
             if g is None or self.depth > 3:
@@ -212,6 +282,11 @@ class TensorEval:
             for p_, a_ in zip(ps, e.args):
                 bind[p_] = self.ev(f, a_, env)
             bind.update(kw)
+            a_ = g.node.args
+            allp = [x.arg for x in a_.posonlyargs + a_.args]
+            for p_, d_ in (zip(allp[len(allp) - len(a_.defaults):], a_.defaults) if a_.defaults else ()):
+                if p_ not in bind:
+                    bind[p_] = self.ev(g, d_, {})
             self.depth += 1
             try:
                 return self.run(g, bind)
@@ -224,6 +299,10 @@ class TensorEval:
             return range(*args)
         if isinstance(fn, ast.Name) and fn.id == 'len' and len(args) == 1:
             return len(args[0])
+        if isinstance(fn, ast.Name) and fn.id == 'enumerate' and len(args) == 1 and isinstance(args[0], (range, list, tuple)):
+            return [(i, x) for i, x in enumerate(args[0])]
+        if isinstance(fn, ast.Name) and fn.id == 'zip' and all(isinstance(a, (range, list, tuple)) for a in args):
+            return [tuple(t) for t in zip(*args)]
         if name == 'sqrt' and len(args) == 1:
             a = args[0]
             return np.frompyfunc(lambda q: q.sqrt(), 1, 1)(a) if isinstance(a, np.ndarray) else Q.lift(a).sqrt()
@@ -250,6 +329,12 @@ class TensorEval:
             return list(args[0]) if fn.id == 'list' else tuple(args[0])
         if isinstance(fn, ast.Name) and fn.id in ('int', 'min', 'max', 'abs') and args and all(isinstance(a, (int, float)) for a in args):
             return {'int': int, 'min': min, 'max': max, 'abs': abs}[fn.id](*args)
+        if isinstance(fn, ast.Name) and fn.id == 'sum' and len(args) == 1 and isinstance(args[0], (range, list, tuple)) and all(isinstance(x, int) for x in args[0]):
+            return sum(args[0])
+        if np_call and name == 'empty' and args:
+            out = np.empty(args[0], dtype=object)
+            out[...] = Q.sym('UNINITIALISED')
+            return out
         if np_call and name in ('zeros', 'ones') and args:
             if dtype_txt is not None and dtype_txt.strip('\'"').split('.')[-1] in ('int', 'int64', 'int32', 'intp'):
                 return getattr(np, name)(args[0], dtype=int)
